@@ -30,6 +30,16 @@ T = {
  'C02': dict(design='4/C02', technique='property-based differential testing of the phasor/DC analysis against an exact rational tableau solution of the independently translated network',
              text='Generated RLC(+G/Z/Y/lamp/load) circuits with DC/AC sources x frequency (0, source frequencies, just inside/outside the resolution, random) x peak/RMS; potentials, voltages and currents of ComplexSolution and DCSolution are compared with the exact solution of the phasor network. Exploration over generated inputs.',
              note='Trusts vlib/circuits.py + vlib/refsolve.py; inactive lossy sources, ill-posed and ill-conditioned (>1e8) cases are not judged.'),
+
+ 'C04': dict(design='4/C04', technique='metamorphic property-based testing (scaling, superposition through the library\'s own source zeroing) + differential check of every partial network against the exact reference',
+             text='Generated networks x complex scale factor x partition of the sources x zeroing order; scaling and superposition relations are checked on the library\'s own results (currents compared as physical I12), every partially deactivated network also against the exact tableau solution, zeroing must preserve ids/terminals/immittances and must not touch exempted sources or the exemption list.',
+             note='Trusts the reference directions of DESIGN 0.1 and vlib/refsolve.py; relations use 1e-7 of the natural scale.'),
+ 'C06': dict(design='4/C06', technique='property-based differential testing of port impedances against an exact unit-test-current reference + metamorphic series/shunt composition, symmetry, reference independence, Thevenin/Norton relations',
+             text='Generated networks (ideal voltage sources, shorts, opens, floating parts, dangling stubs) x port/element/reference/load choices and RLC circuits x frequency sweeps; every reported impedance is compared with the exact value (infinite for disconnected ports), and the loaded-port voltage with the prediction from Voc and Zth.',
+             note='Trusts vlib/refsolve.port_impedance (contracts shorts, prunes unreachable parts, exact solve); undefined (singular) ports and ill-conditioned cases (>1e8, also of the un-contracted network) are not judged.'),
+ 'C16': dict(design='4/C16', technique='property-based testing of the network transformers: structural quotient-isomorphism oracle (union-find), deep snapshots, exact electrical reference',
+             text='Generated networks augmented with shorts by node splitting (chains, stars, parallel shorts, loops, shorts at the reference) and opens x 7 operations x exemption lists; surviving branches must keep id/record/orientation within their node class, nothing else may vanish, no node may split or merge, input and exemption list stay untouched, and the library\'s solution / port impedance of the simplified network must equal the exact solution of the original.',
+             note='Exemption lists contain sources and shorts; results that still contain a zero-impedance loop (stale short next to an exempted one) are only judged structurally; leaving a contractible short in place is not a violation (electrically exact).'),
 }
 
 DEFAULT_LEVEL = 'exploration'
